@@ -18,8 +18,11 @@ type FrameSpec struct {
 	has    bool
 	fields map[string][]func(r string) string // field key -> allowed-ref conditions
 	elems  []string
-	maps   []string
-	texts  []string
+	// allElems ("modifies elems(*)"): the elements of any slice may change. A coarse frame for trusted contracts of functions
+	// whose slice writes cannot be enumerated (the B-tree mutators write into the entry/child arrays of many nodes).
+	allElems bool
+	maps     []string
+	texts    []string
 }
 
 type Exec struct {
@@ -568,6 +571,8 @@ func (x *Exec) evalFrame(spec *FuncSpec, env *Env) *FrameSpec {
 			default:
 				efail("modifies %s: unsupported address", m.Text)
 			}
+		case "allelems":
+			fr.allElems = true
 		case "elems":
 			v := env.eval(m.X)
 			if v.K != KSlice {
@@ -655,6 +660,9 @@ func (fr *FrameSpec) allowsField(key, ref, alloc0 string) string {
 
 func (fr *FrameSpec) allowsElems(arr, alloc0 string) string {
 	// the nil slice (array ref 0) has no storage: "writing its elements" is vacuous
+	if fr.allElems {
+		return "true"
+	}
 	cs := []string{app(">", arr, alloc0), eq(arr, "0")}
 	for _, a := range fr.elems {
 		cs = append(cs, eq(arr, a))
@@ -2295,7 +2303,7 @@ func (x *Exec) havocT(st *State, pre *State, ws *WriteSet, fr *FrameSpec, allocT
 			old := x.elemsArr(pre, s)
 			nw := c.Fresh("E_"+s, arrSort("Int", arrSort("Int", s)))
 			st.elems[s] = nw
-			if fr != nil && fr.has {
+			if fr != nil && fr.has && !fr.allElems {
 				r := c.boundVar("r")
 				var cs []string
 				for _, a := range fr.elems {
